@@ -261,13 +261,49 @@ def r173(ctx):
             ctx.note(f"submission inequality (printed, not armed): {ast.unparse(t.test)}")
 
 
+def r174(ctx):
+    """A finished run leaves no job in flight: the completed job is removed from the in-flight
+    record, and the selector used for the removal has the representation of every filling site
+    (shared with C03 R-3.5 / R-3.8)."""
+    from . import c03
+
+    class Proxy:
+        def __init__(self, c):
+            self._c = c
+            self.tree = c.tree
+
+        def ok(self, rid, node, what, nontrivial=True):
+            self._c.ok("R-17.4", node, what, nontrivial)
+
+        def bad(self, rid, node, message, **kw):
+            self._c.bad("R-17.4", node, message, **kw)
+
+        def note(self, m):
+            self._c.note(m)
+
+    cls = ctx.tree.cls(REPEX, "REPEX_state")
+    methods = {s.name: s for s in cls.body if isinstance(s, FUNC)}
+    c03.r38(Proxy(ctx), methods)
+    # removal of the finished job before the commit
+    f = methods["treat_output"]
+    cfg = cfg_of(f)
+    removes = [c for c in walk_local(f) if isinstance(c, ast.Call) and isinstance(c.func, ast.Attribute) and c.func.attr in ("pop", "remove") and path_of(c.func.value) == "self.locked"]
+    commits = [c for c in walk_local(f) if isinstance(c, ast.Call) and is_self_attr(c.func, "write_toml")]
+    if removes and commits and all(cfg.reaches(cfg.node_of(r), cfg.node_of(c)) for r in removes for c in commits):
+        ctx.ok("R-17.4", removes[0], "treat_output removes the completed job from self.locked before write_toml")
+    else:
+        ctx.bad("R-17.4", f, "treat_output does not remove the completed job from the in-flight record before the commit: a finished run still lists jobs in flight")
+
+
 def run(ctx):
+    ctx.rule("R-17.4", "completed jobs leave the in-flight record (removal before the commit; selector representation agrees with all filling sites)", floor=4)
     ctx.rule("R-17.1", "each dequeued unit completes its future exactly once and calls task_done exactly once", floor=4)
     ctx.rule("R-17.2", "each result is delivered once; every submitted future is managed; runner stopped on exit", floor=6)
     ctx.rule("R-17.3", "stop/refuse decisions compare the step counter with the target", floor=4)
     ctx.attempt(r171, ctx)
     ctx.attempt(r172, ctx)
     ctx.attempt(r173, ctx)
+    ctx.attempt(r174, ctx)
 
 
 VARIANTS = [
@@ -282,6 +318,8 @@ VARIANTS = [
     B("c17-runner-not-stopped", SCHED, "    # end client\n    runner.stop()", "    # end client\n    pass", "R-17.2"),
     B("c17-refuse-without-target", SETUP, '        if curr.get("cstep") == config["simulation"]["steps"]:', '        if curr.get("cstep") == curr.get("restarted_from", -1):', "R-17.3", control=True, why="pre-fix F17.1"),
     B("c17-loop-ends-on-constant", REPEX, "        if self.cstep >= self.tsteps:\n            # should probably", "        if self.cstep >= 1000:\n            # should probably", "R-17.3"),
+    B("c17-reissue-recorded-as-int", REPEX, "        self.locked.append((enss, trajs0))\n", "        self.locked.append((enss, [traj.path_number for traj in trajs]))\n", "R-17.4", control=True, why="seeded C17_a"),
+    B("c17-finished-job-kept", REPEX, "                if str(pn_old) in lock[1]:\n                    self.locked.pop(idx)\n", "                if str(pn_old) in lock[1]:\n                    pass\n", "R-17.4"),
     K("c17-keep-done-first", ASYNC, "                queue.task_done()\n            except asyncio.QueueEmpty:", "                queue.task_done()  # one per dequeued unit\n            except asyncio.QueueEmpty:"),
     K("c17-keep-else-form", ASYNC, "                    future.set_result(md_item)\n                except Exception as e:\n                    # Pass the exception up in the future\n                    future.set_exception(e)\n", "                except Exception as e:\n                    # Pass the exception up in the future\n                    future.set_exception(e)\n                else:\n                    future.set_result(md_item)\n"),
     K("c17-keep-steps-local", SETUP, '        if curr.get("cstep") == config["simulation"]["steps"]:', '        target = config["simulation"]["steps"]\n        if curr.get("cstep") == target:'),
